@@ -95,6 +95,35 @@ def diffAccts (pre post : Accts) : List String :=
     let n := lookupSlot b k
     if o == n then none else some (k ++ "/" ++ n)
 
+/-- The state change of one call, computed inside the footprint that `C05.bounded_footprint` proves the model stays within
+    (accounts: caller, receiver, system account, address arguments; keys: the protocol keys of a token named in the
+    arguments, or an argument itself for SaveKeyValue; plus the four account fields).  The full comparison `diffAccts` is
+    quadratic in the size of the world; this one is linear.  A mistake here can only make the model's diff SMALLER than
+    the implementation's full-world diff (computed by the harness without any such restriction), i.e. show up as a
+    disagreement on the unchanged tree — never hide one. -/
+def isPrefixOfB : Bytes → Bytes → Bool
+  | [], _ => true
+  | _ :: _, [] => false
+  | x :: xs, y :: ys => x == y && isPrefixOfB xs ys
+
+def candKey (args : List Bytes) (k : Bytes) : Bool :=
+  args.any fun t =>
+    k == t || isPrefixOfB (esdtKeyPrefix ++ t) k || k == roleKeyPrefix ++ t || k == nonceKeyPrefix ++ t
+
+def diffCall (c : Call) (pre post : Accts) : List String :=
+  let addrs := ([c.caller, c.rcv, systemAccountAddress] ++ c.args).eraseDups
+  addrs.flatMap fun a =>
+    let x := pre.get a
+    let y := post.get a
+    let restrict (z : Acct) : Acct := { z with store := z.store.filter fun p => candKey c.args p.1 }
+    let sa := slotsOf a (restrict x)
+    let sb := slotsOf a (restrict y)
+    let keys := ((sa.map (·.1)) ++ (sb.map (·.1))).eraseDups
+    keys.filterMap fun k =>
+      let o := lookupSlot sa k
+      let n := lookupSlot sb k
+      if o == n then none else some (k ++ "/" ++ n)
+
 /-! ### observation printing -/
 
 def fmtLog (l : LogEntry) : String :=
@@ -303,7 +332,7 @@ def step (w : World) (line : String) : World × String :=
       match st with
       | .ok out deps =>
         let post := (w'.shards[si]?).map (·.accts) |>.getD []
-        (w', fmtOk out (diffAccts pre post) deps w.trace)
+        (w', fmtOk out (diffCall c pre post) deps w.trace)
       | .err e => (w', "R err:" ++ errName e)
       | .panic => (w', "R panic")
       | .nofunc => (w', "R nofunc")
